@@ -374,8 +374,14 @@ q_number::q_number(const z_number &z) {
 }
 
 q_number::q_number(const z_number &num, const z_number &den) {
+  if (den == 0) {
+    CRAB_ERROR("q_number: zero denominator in constructor");
+  }
   mpz_init_set(mpq_numref(_n), num._n);
   mpz_init_set(mpq_denref(_n), den._n);
+  // GMP requires a canonical form: positive denominator and no
+  // common factors
+  mpq_canonicalize(_n);
 }
 
 q_number q_number::from_mpq_t(mpq_t mp) {
